@@ -5,6 +5,7 @@ set -e
 cd "$(dirname "$0")"
 python3 ../translator/consts.py "${VERIF_REPO:-/repo}/include" Consts.v
 python3 ../translator/bittools.py "${VERIF_REPO:-/repo}/include" BitToolsGen.v
+python3 ../translator/layout.py "${VERIF_REPO:-/repo}/include" LayoutGen.v
 { echo "-Q . X"
   for f in *.v; do
     [ "$f" = Extract.v ] && continue
